@@ -494,6 +494,12 @@ def C16(ctx):
         ctx.floor("R-ALLOC", "allocation sites on the multipolygon path (%s)" % cfg, nsites, 7)
         rules_linked.check(ctx, m, cfg)
         ctx.floor("R-OWN", "addNewLinkedPolygon call sites (%s)" % cfg, rules_linked.check_tail_protocol(ctx, m, cfg), 1)
+        from . import rules_sib
+        ctx.floor("R-SIB", "loop / bounding-box pairings (%s)" % cfg, rules_sib.check_candbbox(ctx, m, cfg), 2)
+        try:
+            rules_linked.check_hole_loop(ctx, m, cfg)
+        except AnalysisBroken as e:
+            ctx.broken("R-OWN", "L7: %s" % e)
     ctx.assumptions += ["allocation failure inside linkedGeo.c / vertexGraph.c is an assert (compiled out with NDEBUG): NULL results are not tested there, so only leak / double-free typestate applies",
                         "the outline itself (loop count, winding, area) is not decided: it depends on bit-level agreement of vertex coordinates and a float hash"]
 
